@@ -123,6 +123,13 @@ M = [
  ("keep-fieldlist-err", "src/lib.rs", "                    writers::write_column_definitions(cols, &mut self.rw, true, true)?;", "                    let _ = cols;\n                    writers::write_err(ErrorKind::ER_NOT_SUPPORTED_YET, b\"COM_FIELD_LIST\", &mut self.rw)?;", [], "FIELD_LIST answered with ERR (a legal reply)"),
  ("keep-probe-resultset", "src/lib.rs", "                            _ => {\n                                w.completed(0, 0)?;\n                            }", "                            _ => {\n                                let cols = &[Column { table: String::new(), column: \"@@x\".to_owned(), coltype: myc::constants::ColumnType::MYSQL_TYPE_VAR_STRING, colflags: myc::constants::ColumnFlags::empty() }];\n                                let mut w = w.start(cols)?;\n                                w.write_row(iter::once(\"\"))?;\n                                w.finish()?;\n                            }", [], "SELECT @@x answered with a one-row resultset"),
  ("keep-use-tab", "src/lib.rs", "} else if q.starts_with(b\"USE \") || q.starts_with(b\"use \") {", "} else if q.starts_with(b\"USE \") || q.starts_with(b\"use \") || q.starts_with(b\"USE\\t\") {", [], "USE<TAB>db recognised too (grey spelling)"),
+ # ---- correct versions of "optimisations" whose buggy variants were seeded (must stay green everywhere)
+ ("keep-eintr-retry-correct", "src/packet.rs", "            let read = {\n                let buf = &mut self.bytes[end..];\n                self.rw.read(buf)?\n            };", "            let read = {\n                let buf = &mut self.bytes[end..];\n                match self.rw.read(buf) {\n                    Ok(n) => n,\n                    Err(ref e) if e.kind() == io::ErrorKind::Interrupted => {\n                        self.bytes.truncate(end);\n                        self.remaining = self.bytes.len();\n                        continue;\n                    }\n                    Err(e) => return Err(e),\n                }\n            };", [], "EINTR on read retried correctly (buffer truncated back first)"),
+ ("keep-ok-hot-path-correct", "src/writers.rs", "    w.write_u8(0x00)?; // OK packet type\n    w.write_lenenc_int(rows)?;\n    w.write_lenenc_int(last_insert_id)?;", "    if rows < 0xfb && last_insert_id < 0xfb {\n        w.write_all(&[0x00, rows as u8, last_insert_id as u8])?;\n    } else {\n        w.write_u8(0x00)?; // OK packet type\n        w.write_lenenc_int(rows)?;\n        w.write_lenenc_int(last_insert_id)?;\n    }", [], "one-write hot path for small OK counters, with the right bound"),
+ ("keep-coldef-scratch-correct", "src/writers.rs", "        w.write_lenenc_str(b\"def\")?;\n        w.write_lenenc_str(b\"\")?;\n        w.write_lenenc_str(c.table.as_bytes())?;", "        let mut head = Vec::new();\n        head.write_lenenc_str(b\"def\")?;\n        head.write_lenenc_str(b\"\")?;\n        head.write_lenenc_str(c.table.as_bytes())?;\n        w.write_all(&head)?;", [], "part of the column definition assembled in a scratch buffer and written with write_all"),
+ ("keep-zero-len-time-by-total", "src/value/encode.rs", "                if self.as_secs() == 0 && us == 0 {", "                if *self == Duration::new(0, 0) || (self.as_secs() == 0 && us == 0) {", [], "equivalent zero test for the TIME zero-length form"),
+ ("keep-datetime-shortest-form-correct", "src/value/encode.rs", "                if us != 0 {\n                    w.write_u8(11u8)?;\n                } else {\n                    w.write_u8(7u8)?;\n                }\n                w.write_u16::<LittleEndian>(self.year() as u16)?;\n                w.write_u8(self.month() as u8)?;\n                w.write_u8(self.day() as u8)?;\n                w.write_u8(self.hour() as u8)?;\n                w.write_u8(self.minute() as u8)?;\n                w.write_u8(self.second() as u8)?;", "                let date_only = us == 0 && self.num_seconds_from_midnight() == 0;\n                if us != 0 {\n                    w.write_u8(11u8)?;\n                } else if date_only {\n                    w.write_u8(4u8)?;\n                } else {\n                    w.write_u8(7u8)?;\n                }\n                w.write_u16::<LittleEndian>(self.year() as u16)?;\n                w.write_u8(self.month() as u8)?;\n                w.write_u8(self.day() as u8)?;\n                if date_only {\n                    return Ok(());\n                }\n                w.write_u8(self.hour() as u8)?;\n                w.write_u8(self.minute() as u8)?;\n                w.write_u8(self.second() as u8)?;", [], "binary DATETIME uses the legal 4-byte form for exact midnight (values unchanged)"),
+ ("keep-long-data-empty-chunk-correct", "src/lib.rs", "                        .long_data\n                        .entry(param)\n                        .or_insert_with(Vec::new)\n                        .extend(data);", "                        .long_data\n                        .entry(param)\n                        .or_insert_with(|| Vec::with_capacity(data.len()))\n                        .extend(data);", [], "pre-sized long-data buffer (entry still created for empty chunks)"),
 ]
 
 EXTRA_SRC = {
